@@ -6,21 +6,83 @@
 From Coq Require Import List NArith ZArith QArith Qabs Bool Arith Lia Permutation.
 Import ListNotations.
 From FP Require Import Lin Blocks BlocksProofs PathEnc Euler EulerProofs1 EulerProofs4 DagDecode PathEncProofs
-                       ErrEnc ErrEncProofs ErrEncProofs2 ErrEncProofs3.
+                       PathEncComplete PathEncGivenComplete WfCheck CheckedInstances
+                       ErrEnc ErrEncProofs ErrEncProofs2 ErrEncProofs3 ErrEncComplete ErrEncOptimal ErrEncKlae ErrEncGiven ErrEncGivenMpe
+                       ErrEncChecked ErrEncExamples.
 Local Close Scope Q_scope.
 
-(* the full statement: for the solver's optimal assignment a*, the decoded paths and weights minimise
-   the scaled absolute error over ALL choices of k source-to-sink paths and non-negative weights of the
-   requested type.  It follows from the four theorems below under the solver specification; the
-   composition is not stated as one Coq theorem because completeness is proved for instances without
-   subpath constraints and paths given as unit flows (see C07_klae_enc_complete). *)
-Definition C07_full_statement : Prop :=
-  forall (I : err_inst) (a : var -> Q),
-    sat a (encode_klae I) -> (forall b, sat b (encode_klae I) -> obj_le (encode_klae I) a b) ->
-    forall (x : N -> PathEnc.edge -> Z) (w : N -> Q),
-      unit_flows (eG I) (eK I) x -> (forall i, In i (layers (eK I)) -> (0 <= w i)%Q) ->
-      (sumq (fun e => scale_of I e * abs_err I (fun i e => xval a i e) (fun i => a (W i)) e) (basic_edges I)
-       <= sumq (fun e => scale_of I e * abs_err I x w e) (basic_edges I))%Q.
+(* THE property as one theorem, with executable premises (klae_premises_b is evaluated by the extracted driver on every
+   E1 instance): for every well-formed acyclic instance in the documented domain, the objective of an optimal satisfying
+   assignment of the LP (= what the solver returns, DESIGN §4) equals the minimum of
+       sum_e scale_e * | f(e) - sum_i w_i [e on path i] |
+   over ALL choices of k source-to-sink paths covering the subpath constraints and ALL non-negative weights of the
+   requested type (no bound on the weights: the LP's bound w_max is removed by the clipping lemma). *)
+Theorem C07_klae_optimal_checked : forall (I : err_inst) (a : var -> Q) (order : list node),
+  klae_premises_b I order = true -> e_given I = None -> p_allow_empty (e_base I) = false ->
+  sat a (encode_klae I) -> (forall b, sat b (encode_klae I) -> (objective a (encode_klae I) <= objective b (encode_klae I))%Q) ->
+  (exists P w, st_paths (eG I) (eK I) P /\ adm_weights I w /\ constraints_covered (e_base I) P /\
+               (klae_cost I P w == objective a (encode_klae I))%Q) /\
+  (forall P w, st_paths (eG I) (eK I) P -> adm_weights I w -> constraints_covered (e_base I) P ->
+               (objective a (encode_klae I) <= klae_cost I P w)%Q).
+Proof. exact klae_optimal_checked. Qed.
+Print Assumptions C07_klae_optimal_checked.
+
+(* the same with the premises as propositions (rank witness instead of a topological order) *)
+Theorem C07_klae_optimal : forall (I : err_inst) (a : var -> Q) (rank : node -> nat) (Rm : nat),
+  e_given I = None -> wf_graph (eG I) -> p_allow_empty (e_base I) = false ->
+  (forall u v, In (u, v) (g_edges (eG I)) -> (rank u < rank v)%nat) -> (forall v, (rank v <= Rm)%nat) ->
+  klae_side I ->
+  sat a (encode_klae I) -> (forall b, sat b (encode_klae I) -> (objective a (encode_klae I) <= objective b (encode_klae I))%Q) ->
+  (exists P w, st_paths (eG I) (eK I) P /\ adm_weights I w /\ constraints_covered (e_base I) P /\
+               (klae_cost I P w == objective a (encode_klae I))%Q) /\
+  (forall P w, st_paths (eG I) (eK I) P -> adm_weights I w -> constraints_covered (e_base I) P ->
+               (objective a (encode_klae I) <= klae_cost I P w)%Q).
+Proof. exact klae_optimal. Qed.
+Print Assumptions C07_klae_optimal.
+
+(* completeness with subpath constraints, paths as node lists: every choice the LP can represent is a satisfying assignment
+   whose objective is the cost of the choice *)
+Theorem C07_klae_complete : forall (I : err_inst) (P : N -> list node) (w : N -> Q),
+  e_given I = None -> wf_graph (eG I) -> p_allow_empty (e_base I) = false ->
+  (forall c e, In c (p_cons (e_base I)) -> In e c -> (0 <= elen (e_base I) e)%Q) ->
+  klae_choice I P w ->
+  exists a, sat a (encode_klae I) /\ (objective a (encode_klae I) == klae_cost I P w)%Q /\
+            (forall i, a (W i) = w i) /\ (forall u v i, a (Edge u v i) = onq P i (u, v)) /\
+            (forall e, a (Err (fst e) (snd e)) = klae_err I P w e).
+Proof. exact klae_complete. Qed.
+Print Assumptions C07_klae_complete.
+
+(* soundness in decoded form, executable premises *)
+Theorem C07_klae_enc_sound_checked : forall (I : err_inst) (a : var -> Q) (order : list node),
+  klae_premises_b I order = true -> e_given I = None -> p_allow_empty (e_base I) = false -> sat a (encode_klae I) ->
+  let P := dec_path (eG I) a (length order) in let w := fun i => a (W i) in
+  st_paths (eG I) (eK I) P /\
+  (forall i, In i (layers (eK I)) -> (0 <= w i <= w_max I)%Q /\ (e_int I = true -> is_int (w i))) /\
+  (forall e, In e (basic_edges I) -> (klae_err I P w e <= a (Err (fst e) (snd e)))%Q /\ (a (Err (fst e) (snd e)) <= w_max I)%Q) /\
+  constraints_covered (e_base I) P.
+Proof. exact klae_enc_sound_checked. Qed.
+Print Assumptions C07_klae_enc_sound_checked.
+
+(* solution_weights_superset: layer i carries the constant weight ws[i], may be empty, at most k_orig layers are used.
+   The LP optimum is the minimum of the scaled absolute error over all such choices whose errors fit the Err bound w_max
+   (no clipping is possible when the weights are fixed; see the claim note). *)
+Theorem C07_klae_given_optimal : forall (I : err_inst) (ws : list Q) (a : var -> Q) (rank : node -> nat) (Rm : nat),
+  e_given I = Some ws -> wf_graph (eG I) -> p_allow_empty (e_base I) = true -> p_cons (e_base I) = [] -> length ws = eK I ->
+  (forall u v, In (u, v) (g_edges (eG I)) -> (rank u < rank v)%nat) -> (forall v, (rank v <= Rm)%nat) ->
+  (forall e, In e (basic_edges I) -> (0 <= scale_of I e)%Q /\ (e_int I = true -> is_int (flow_of I e))) ->
+  (e_int I = true -> forall q, In q ws -> is_int q) ->
+  sat a (encode_klae I) -> (forall b, sat b (encode_klae I) -> (objective a (encode_klae I) <= objective b (encode_klae I))%Q) ->
+  (exists P, klae_given_choice I ws P /\ (gcost I ws P == objective a (encode_klae I))%Q) /\
+  (forall P, klae_given_choice I ws P -> (objective a (encode_klae I) <= gcost I ws P)%Q).
+Proof. exact klae_given_optimal. Qed.
+Print Assumptions C07_klae_given_optimal.
+
+Theorem C07_klae_given_complete : forall (I : err_inst) (ws : list Q) (P : N -> list node),
+  e_given I = Some ws -> wf_graph (eG I) -> p_allow_empty (e_base I) = true -> p_cons (e_base I) = [] -> length ws = eK I ->
+  klae_given_choice I ws P ->
+  sat (gasg I ws P) (encode_klae I) /\ (objective (gasg I ws P) (encode_klae I) == gcost I ws P)%Q.
+Proof. exact klae_given_complete. Qed.
+Print Assumptions C07_klae_given_complete.
 
 Theorem C07_klae_enc_sound : forall (I : err_inst) (a : var -> Q) (rank : node -> nat) (Rm : nat),
   let G := eG I in let k := eK I in
@@ -99,3 +161,16 @@ Proof.
   split; [apply sat_b_sound; vm_compute; reflexivity|]. split; [vm_compute; reflexivity|].
   split; [vm_compute; reflexivity|]. split; [vm_compute; reflexivity|exact wit_graph_wf].
 Qed.
+
+(* non-vacuity of C07_klae_optimal_checked: the witness instance passes the executable premises and has an optimal
+   satisfying assignment, so every hypothesis is satisfiable; its optimum is 1 *)
+Example C07_checked_nonvacuous :
+  klae_premises_b wit12 wit_order = true /\ e_given wit12 = None /\ p_allow_empty (e_base wit12) = false /\
+  sat wit12_a (encode_klae wit12) /\
+  (forall b, sat b (encode_klae wit12) -> (objective wit12_a (encode_klae wit12) <= objective b (encode_klae wit12))%Q) /\
+  (objective wit12_a (encode_klae wit12) == 1)%Q.
+Proof. exact klae_checked_nonvacuous. Qed.
+
+Example C07_given_example : sat (gasg wit_given [2%Q] wit_given_P) (encode_klae wit_given) /\
+                            (objective (gasg wit_given [2%Q] wit_given_P) (encode_klae wit_given) == 2)%Q.
+Proof. exact klae_given_example. Qed.
